@@ -22,10 +22,25 @@ type genFile struct {
 }
 
 type manifest struct {
-	Files    []genFile         `json:"files"`
-	Packages []string          `json:"packages"`
-	Requests map[string]string `json:"requests"` // proto file name -> path of serialized FileDescriptorProto
-	Errors   []string          `json:"errors"`
+	Files      []genFile         `json:"files"`
+	Packages   []string          `json:"packages"`
+	Requests   map[string]string `json:"requests"` // proto file name -> path of serialized FileDescriptorProto
+	Errors     []string          `json:"errors"`
+	Units      []unitResult      `json:"units,omitempty"`      // C12 corpus: one entry per request
+	PkgLabel   map[string]string `json:"pkg_label,omitempty"`  // Go package -> schema label (attribution of compile errors)
+	Violations []violation       `json:"violations,omitempty"` // C12: found while generating
+}
+
+type unitResult struct {
+	ID, Label, Param, Expect string
+	OK                       bool
+	Files                    []string
+}
+
+type violation struct {
+	Key  string      `json:"key"`
+	What string      `json:"what"`
+	Case interface{} `json:"case"`
 }
 
 func main() {
@@ -37,6 +52,10 @@ func main() {
 	pkgs := map[string]bool{}
 	for _, set := range strings.Split(*sets, ",") {
 		var files []*descriptorpb.FileDescriptorProto
+		if set == "corpus-quick" || set == "corpus-thorough" {
+			runCorpus(&man, pkgs, *plugin, *out, set == "corpus-thorough")
+			continue
+		}
 		switch set {
 		case "mx":
 			files = schema.MX()
@@ -84,6 +103,179 @@ func main() {
 	if len(man.Errors) > 0 {
 		fmt.Fprintln(os.Stderr, strings.Join(man.Errors, "\n"))
 		os.Exit(1)
+	}
+	fmt.Printf("gencorpus: %d packages, %d files, %d units, %d violations while generating\n", len(man.Packages), len(man.Files), len(man.Units), len(man.Violations))
+}
+
+type c12case struct {
+	Unit  string `json:"unit"`
+	Label string `json:"label"`
+	Param string `json:"parameter,omitempty"`
+	Phase string `json:"phase"`
+}
+
+func runCorpus(man *manifest, pkgs map[string]bool, plugin, out string, thorough bool) {
+	if man.PkgLabel == nil {
+		man.PkgLabel = map[string]string{}
+	}
+	units := schema.Corpus(thorough)
+	type res struct {
+		u    schema.Unit
+		r    schema.RunResult
+		gen  []string
+		verr error
+	}
+	results := make([]res, len(units))
+	sem := make(chan struct{}, 16)
+	done := make(chan int, len(units))
+	run := func(u schema.Unit) res {
+		gen := u.Gen
+		if gen == nil {
+			for _, f := range u.Files {
+				gen = append(gen, f.GetName())
+			}
+		}
+		if _, err := schema.Validate(u.Files); err != nil {
+			return res{u: u, gen: gen, verr: err}
+		}
+		return res{u: u, gen: gen, r: schema.RunPlugin(plugin, schema.Request(u.Files, gen, u.Param), nil, "")}
+	}
+	for i := range units {
+		go func(i int) {
+			sem <- struct{}{}
+			results[i] = run(units[i])
+			<-sem
+			done <- i
+		}(i)
+	}
+	for range units {
+		<-done
+	}
+	var handle func(r res)
+	handle = func(r res) {
+		u := r.u
+		c := c12case{Unit: u.ID, Label: u.Label, Param: u.Param, Phase: "generate"}
+		if r.verr != nil {
+			man.Errors = append(man.Errors, fmt.Sprintf("INTERNAL: corpus unit %s is not a valid schema: %v", u.ID, r.verr))
+			return
+		}
+		ur := unitResult{ID: u.ID, Label: u.Label, Param: u.Param, Expect: u.Expect}
+		fail := func(oracle, what string) {
+			man.Violations = append(man.Violations, violation{Key: "C12/" + oracle + "/" + u.ID, What: what, Case: c})
+		}
+		if r.r.Err != nil || r.r.ExitCode != 0 || r.r.Resp == nil {
+			fail("plugin-crash", fmt.Sprintf("schema %q (%s): the plugin crashed or wrote no response: exit=%d err=%v stderr=%s", u.Label, u.ID, r.r.ExitCode, r.r.Err, tail(r.r.Stderr)))
+			man.Units = append(man.Units, ur)
+			return
+		}
+		if u.Expect == "error" {
+			if r.r.Resp.GetError() == "" {
+				fail("unservable-request-not-rejected", fmt.Sprintf("request with parameter %q must be answered with an error message; got %d files and no error", u.Param, len(r.r.Resp.GetFile())))
+			} else if len(r.r.Resp.GetFile()) != 0 {
+				fail("error-with-files", fmt.Sprintf("request with parameter %q answered with an error AND %d files", u.Param, len(r.r.Resp.GetFile())))
+			} else {
+				ur.OK = true
+			}
+			man.Units = append(man.Units, ur)
+			return
+		}
+		if u.Expect == "any" {
+			ur.OK = true
+			man.Units = append(man.Units, ur)
+			return
+		}
+		if e := r.r.Resp.GetError(); e != "" {
+			if len(u.Parts) > 0 {
+				// attribute: re-run every message of the group on its own
+				for _, p := range u.Parts {
+					handle(run(p()))
+				}
+				return
+			}
+			first := e
+			if i := strings.Index(first, "\n"); i > 0 {
+				first = first[:i]
+			}
+			if len(first) > 300 {
+				first = first[:300]
+			}
+			fail("generator-error", fmt.Sprintf("valid proto3 schema %q (%s) is answered with an error instead of sources: %s", u.Label, u.ID, first))
+			man.Units = append(man.Units, ur)
+			return
+		}
+		// expected output file set
+		want := map[string]bool{}
+		wl := u.Want
+		if wl == nil {
+			wl = r.gen
+		}
+		for _, n := range wl {
+			want[strings.TrimSuffix(n, ".proto")+".pulsar.go"] = true
+		}
+		got := map[string]bool{}
+		for _, gf := range r.r.Resp.GetFile() {
+			// paths=import (default): <go import path>/<base>.pulsar.go ; source_relative: <proto dir>/<base>.pulsar.go
+			base := filepath.Base(gf.GetName())
+			matched := false
+			for w := range want {
+				if filepath.Base(w) == base {
+					matched = true
+					got[w] = true
+				}
+			}
+			if !matched {
+				fail("unexpected-output-file", fmt.Sprintf("schema %q (%s): output file %s was generated although it is not expected (unrequested, proto2, or misnamed)", u.Label, u.ID, gf.GetName()))
+			}
+		}
+		for w := range want {
+			if !got[w] {
+				fail("missing-output-file", fmt.Sprintf("schema %q (%s): no output for requested proto3 file %s", u.Label, u.ID, w))
+			}
+		}
+		// write sources; package path is derived from go_package, independent of the paths= parameter
+		for _, f := range u.Files {
+			b, _ := proto.Marshal(f)
+			p := filepath.Join(out, "req_"+strings.ReplaceAll(f.GetName(), "/", "_")+".binpb")
+			schema.MustWrite(p, b)
+			man.Requests[f.GetName()] = p
+		}
+		for _, gf := range r.r.Resp.GetFile() {
+			base := filepath.Base(gf.GetName())
+			pkg := ""
+			for _, f := range u.Files {
+				if strings.TrimSuffix(filepath.Base(f.GetName()), ".proto")+".pulsar.go" == base {
+					pkg = f.GetOptions().GetGoPackage()
+					if pkg == "" && strings.HasPrefix(u.Param, "M") {
+						pkg = u.Param[strings.Index(u.Param, "=")+1:]
+					}
+				}
+			}
+			if i := strings.Index(pkg, ";"); i >= 0 {
+				pkg = pkg[:i]
+			}
+			if pkg == "" || !strings.HasPrefix(pkg, schema.GenRoot) || u.NoCompile {
+				continue
+			}
+			dst := filepath.Join(out, "src", pkg)
+			os.MkdirAll(dst, 0o755)
+			p := filepath.Join(dst, base)
+			if _, err := os.Stat(p); err == nil {
+				continue // same file generated by another unit (shared dependency): identical by C13
+			}
+			schema.MustWrite(p, []byte(gf.GetContent()))
+			man.Files = append(man.Files, genFile{Pkg: pkg, Name: base, Path: p})
+			if !pkgs[pkg] {
+				pkgs[pkg] = true
+				man.Packages = append(man.Packages, pkg)
+			}
+			man.PkgLabel[pkg] = u.ID + ": " + u.Label
+			ur.Files = append(ur.Files, gf.GetName())
+		}
+		ur.OK = true
+		man.Units = append(man.Units, ur)
+	}
+	for _, r := range results {
+		handle(r)
 	}
 }
 
